@@ -36,3 +36,4 @@ def run(prog, rep):
     from ..rules import r_flow as _rfa
     _rfa.run_aligned(prog, rep)
     _ru6.run_no_static_state(prog, rep)
+    r_pair.run_dispatch_total(prog, rep)
